@@ -404,15 +404,21 @@ Inductive event :=
 | Report (t r : Z) (v : Q) (cont : bool)       (* on_trial_result, and on_trial_remove if the decision is STOP/PAUSE *)
 | Resume (t : Z) (b : nat)                     (* suggest -> resume trial t *)
 | Complete (t r : Z) (v : Q)                   (* on_trial_complete with the last seen result *)
-| Fail (t : Z).                                (* on_trial_error: failed or stopped from outside *)
+| Fail (t : Z)                                 (* on_trial_error: failed or stopped from outside *)
+| Late (t r : Z) (v : Q).                      (* on_trial_result for a trial that is NOT running any more (late report
+                                                  after STOP / PAUSE / failure / completion), then on_trial_remove *)
+
+(* on_trial_result followed by what the tuner does with the decision *)
+Definition report_core (cfg : config) (st : state) (t r : Z) (v : Q) (cont : bool) : res (state * option decision) :=
+  bind (on_trial_result cfg st t r v cont) (fun '(st1, d) =>
+  Ok (match d with CONTINUE => st1 | _ => on_trial_remove st1 t end, Some d)).
 
 Definition step (cfg : config) (st : state) (e : event) : res (state * option decision) :=
   match e with
   | Start t b => bind (on_start cfg st t b) (fun st' => Ok (st', None))
   | Report t r v cont =>
-      let st0 := {| srch := srch st; trials := trials st; reps := note_rep (t, r) v (reps st) |} in
-      bind (on_trial_result cfg st0 t r v cont) (fun '(st1, d) =>
-      Ok (match d with CONTINUE => st1 | _ => on_trial_remove st1 t end, Some d))
+      report_core cfg {| srch := srch st; trials := trials st; reps := note_rep (t, r) v (reps st) |} t r v cont
+  | Late t r v => report_core cfg st t r v true      (* not a delivery: the monitor [reps] is not touched *)
   | Resume t b => bind (on_resume cfg st t b) (fun st' => Ok (st', None))
   | Complete t r v => bind (on_trial_complete cfg st t r v) (fun st' => Ok (st', None))
   | Fail t => Ok (on_trial_error st t, None)
@@ -468,6 +474,7 @@ Definition legal_b (cfg : config) (st : state) (e : event) : bool :=
           end
       end
   | Fail t => match find t (trials st) with None => false | Some _ => true end
+  | Late t _ _ => match find t (trials st) with None => false | Some rec => negb (decision_eqb (dec rec) CONTINUE) end
   end.
 
 (* histories the tuner can produce: every event legal in the state it is issued in *)
